@@ -12,7 +12,7 @@ import time
 import traceback
 
 ROOT = os.path.dirname(os.path.dirname(os.path.abspath(__file__)))
-EVID = os.path.join(ROOT, "evidence")
+EVID = os.environ.get("VF_EVIDENCE_DIR") or os.path.join(ROOT, "evidence")  # the override is for development runs against scratch copies only
 KNOWN_PATH = os.path.join(ROOT, "known_findings.json")
 SCHEMA = "/root/.vp/EVIDENCE.schema.json"
 
